@@ -293,6 +293,27 @@ fn output_result_xml<T: serde::Serialize>(result: T) -> Result<()> {
     // Write the XML 1.1 declaration
     writer.write_event(Event::Decl(BytesDecl::new("1.1", Some("utf-8"), None)))?;
 
+    // Escape text for an XML 1.1 document: the markup characters, and the control characters
+    // which are only allowed as character references (NUL is not allowed at all).
+    fn escape_xml_text(text: &str) -> String {
+        let mut escaped = String::with_capacity(text.len());
+        for c in text.chars() {
+            match c {
+                '<' => escaped.push_str("&lt;"),
+                '>' => escaped.push_str("&gt;"),
+                '&' => escaped.push_str("&amp;"),
+                '\'' => escaped.push_str("&apos;"),
+                '"' => escaped.push_str("&quot;"),
+                '\0' | '\u{FFFE}' | '\u{FFFF}' => escaped.push('\u{FFFD}'),
+                '\u{1}' ..= '\u{8}' | '\u{B}' ..= '\u{C}' | '\u{E}' ..= '\u{1F}' | '\u{7F}' ..= '\u{84}' | '\u{86}' ..= '\u{9F}' => {
+                    escaped.push_str(&format!("&#x{:X};", c as u32))
+                }
+                c => escaped.push(c),
+            }
+        }
+        escaped
+    }
+
     // Define a recursive function `json_to_xml` to convert the JSON value into XML
     // format. The function takes a mutable reference to the XML writer, an
     // optional key as a string slice, and a reference to the JSON value to be
@@ -350,7 +371,7 @@ fn output_result_xml<T: serde::Serialize>(result: T) -> Result<()> {
                 };
 
                 // Create a text node with the converted string value.
-                writer.write_event(Event::Text(BytesText::new(&text_string)))?;
+                writer.write_event(Event::Text(BytesText::from_escaped(escape_xml_text(&text_string))))?;
 
                 if let Some(key) = key {
                     // Close the XML element.
